@@ -435,8 +435,12 @@ var Scenarios = map[string]scenario{
 	// ------------------------------------------------------------------ sort
 	"sort": func(lg *rec.Log, r *rand.Rand) {
 		type item struct{ Key, Tag int }
-		variant := []string{"SortFunc", "SortStableFunc", "Sort"}[r.Intn(3)]
-		n := []int{0, 1, 2, 11, 12, 13, 30, 200}[r.Intn(8)] // the standard library switches algorithm at 12 elements
+		sortRound++
+		variant := []string{"SortStableFunc", "SortFunc", "Sort"}[sortRound%3] // every variant in turn
+		n := []int{0, 1, 2, 11, 12, 13, 30, 200}[r.Intn(8)]                    // the standard library switches algorithm at 12 elements
+		if variant == "SortStableFunc" && (sortRound/3)%4 != 3 {
+			n = []int{13, 30, 200}[r.Intn(3)] // stability only shows above the insertion-sort threshold
+		}
 		nkeys := 1 + r.Intn(4)
 		items := make([]item, n)
 		for i := range items {
@@ -605,6 +609,8 @@ func times(r *rand.Rand) []time.Time {
 	}
 	return out
 }
+
+var sortRound = -1
 
 var zoneCache []*time.Location
 
